@@ -52,6 +52,12 @@ HARNESSES = [
             '(exactly once if nothing threw); every Range and Body copy destroyed exactly once and none alive (except the user\'s) when the call returns; tasks/tree nodes released exactly once; '
             'wait_context reaches zero exactly once; pool empty; never would-spin-forever',
        bounds={'elements': 'N', 'threads': 1, 'throwing elements': 'every subset'}, **PF),
+  dict(name='pfor_ctor_throw', defines={'ALGO': 1, 'CTOR': 1}, scenarios=[{'N': 2}, {'N': 3}], scenarios_thorough=[{'N': n} for n in range(1, 7)],
+       desc='pfor with throwing USER CONSTRUCTORS: the k-th Range copy / Range split / Body copy constructor call made by the library while it creates tasks (start_for::run root construction, '
+            'start_for::offer_work_impl: right child + continuation tree_node) throws - symbolic mask over the first 16 calls - in addition to the symbolic body-throw mask. Oracle of pfor: exactly one exception '
+            'surfaces at the call (directly when the root construction throws, else rethrown once), the call returns (tree_node ref counts match the children that exist: never would-spin-forever), '
+            'wait_context released exactly once, no Range/Body copy alive, no task/tree-node storage lost (separate assertion for the allocation under construction inside new_object)',
+       bounds={'elements': 'N', 'threads': 1, 'throwing elements / constructor calls': 'every subset'}, **PF),
   dict(name='pdreduce', defines={'ALGO': 2}, scenarios=[{'N': 3}, {'N': 4}], scenarios_thorough=[{'N': n} for n in range(1, 13)],
        desc='real parallel_deterministic_reduce(simple_partitioner) over [0,N): start_deterministic_reduce + deterministic_reduction_tree_node (split body per right child) on the real dispatcher loop; '
             'oracle of pfor plus: join is never called once the group captured an exception, joins are adjacent, split bodies destroyed exactly once, full interval reduced if nothing threw',
@@ -89,7 +95,7 @@ MANIFEST = dict(
 OUTSIDE = [
   'more than one thread: two bodies throwing concurrently, a throw racing with a steal, exceptions on worker threads (outermost_worker_waiter), stolen/affinitized tasks (task_proxy, mailboxes), zombie bodies of parallel_reduce',
   'task_arena::execute / isolate exception transport, flow graph, parallel_pipeline, parallel_for_each, parallel_invoke, parallel_scan/sort; auto/affinity/static partitioners',
-  'exceptions thrown by Range copy/split constructors, Body copy/split constructors or join()',
+  'exceptions thrown by Body split constructors or join() (parallel_reduce: harnesses reduce_throw_*), by Range/Body constructors of algorithms other than parallel_for(simple_partitioner)',
   'global_control terminate_on_exception, std::exception_ptr implementation (libstdc++), rethrow_exception_broken work-around',
   'resumable tasks / coroutines, critical tasks, enqueue; arena and market construction (vp_setup replicates the fields the dispatcher reads)',
   'task_group_base destructor without wait (missing_wait), structured_task_group / isolated_task_group, task_handle API',
